@@ -63,19 +63,26 @@ theorem go_mem (valid : Bool) (s : V1State) (r : Event) (rest : List Event) :
       exact List.mem_cons_of_mem _ this
     · exact List.mem_cons_self
 
+/-- what the slot held before the block is put back once the block is resolved -/
+def restorePrev (prev : Option Event) (s : V1State) : V1State :=
+  match prev with
+  | some p => s.addAuthEvent p
+  | none => s
+
 theorem resolveAuthBlock_eq (sha : ID → Bytes) (valid : Bool) (s : V1State) (evs : List Event) :
     resolveAuthBlock sha valid s evs =
       match sortV1 sha evs with
       | [] => (none, s)
       | first :: rest =>
         (some (resolveAuthBlock.go valid (s.addAuthEvent first) first rest).1,
-         (resolveAuthBlock.go valid (s.addAuthEvent first) first rest).2.removeAuthEvent
+         restorePrev (s.authEventAt first.type (first.stateKey.getD []))
+          ((resolveAuthBlock.go valid (s.addAuthEvent first) first rest).2.removeAuthEvent
            (resolveAuthBlock.go valid (s.addAuthEvent first) first rest).1.type
-           ((resolveAuthBlock.go valid (s.addAuthEvent first) first rest).1.stateKey.getD [])) := by
+           ((resolveAuthBlock.go valid (s.addAuthEvent first) first rest).1.stateKey.getD []))) := by
   unfold resolveAuthBlock
   split
   · rename_i h; rw [h]
-  · rename_i h; rw [h]
+  · rename_i h; rw [h]; rfl
 
 theorem resolveAuthBlock_mem {sha : ID → Bytes} {valid : Bool} {s : V1State} {evs : List Event} {e : Event}
     (h : (resolveAuthBlock sha valid s evs).1 = some e) : e ∈ evs := by
